@@ -70,7 +70,7 @@ func isCER(s string) bool { return strings.HasPrefix(s, "CER") }
 func isCEA(s string) bool { return strings.HasPrefix(s, "CEA") }
 func isApp(s string) bool {
 	switch s {
-	case "RAR", "CCR", "STR", "CCA", "ASA":
+	case "RAR", "CCR", "STR", "CCA", "ASA", "DWA":
 		return true
 	}
 	return false
@@ -83,6 +83,8 @@ func label(sym string, catchAll bool) string {
 		return "name:RAR"
 	case "CCA":
 		return "name:CCA"
+	case "DWA": // an application may handle watchdog answers itself (the client's watchdog is off here)
+		return "name:DWA"
 	case "CCR":
 		return "idx:CCR"
 	case "STR", "ASA":
@@ -163,6 +165,8 @@ func (c Case) wire(cerH refcodec.Header) (msgs [][]byte, hbh []uint32, cerOK []b
 		case "STR":
 			b = message(flagRequest, cmdST, 0, h, e, append([]*refcodec.Node{session}, append(identity(),
 				str(cDestRealm, ownRealm), u32(cAuthAppID, 4), u32(cTermCause, 1))...)...)
+		case "DWA":
+			b = message(0, cmdDW, 0, h, e, append([]*refcodec.Node{u32(cResultCode, 2001)}, identity()...)...)
 		case "ASA":
 			b = message(0, cmdAS, 0, h, e, append([]*refcodec.Node{session, u32(cResultCode, 2001)}, identity()...)...)
 		}
@@ -248,6 +252,7 @@ func (a *application) invocations() []invocation {
 func (a *application) register(m *sm.StateMachine, catchAll bool) {
 	m.HandleFunc("RAR", a.handler("name:RAR"))
 	m.Handle("CCA", a.handler("name:CCA"))
+	m.HandleFunc("DWA", a.handler("name:DWA"))
 	m.HandleIdx(diam.CommandIndex{AppID: 4, Code: cmdCC, Request: true}, a.handler("idx:CCR"))
 	if catchAll {
 		m.HandleFunc("ALL", a.handler("ALL"))
@@ -311,6 +316,7 @@ func runCase(c Case) *ev.Failure {
 		for _, x := range al {
 			found = found || x == s
 		}
+		found = found || s == "DWA" // random histories only: a watchdog answer for the application's own "DWA" handler
 		if !found {
 			return ev.Failf("harness-generator", "symbol %q is not in the %s alphabet", s, c.Role)
 		}
@@ -707,8 +713,8 @@ func genFrag(t *rapid.T, c *Case) {
 
 var (
 	serverWeighted = []string{"CER", "CER", "CER-app4", "CER-noapp", "CER-noapp", "CER-nohost", "CER-dup", "CER-dup", "DWR", "DWR",
-		"RAR", "RAR", "RAR", "CCR", "CCR", "CCR", "STR", "STR", "CCA", "CCA", "ASA", "ASA"}
-	clientOther = []string{"CER", "DWR", "DWR", "RAR", "RAR", "RAR", "CCR", "CCR", "CCR", "STR", "STR", "CCA", "CCA", "ASA", "ASA"}
+		"RAR", "RAR", "RAR", "CCR", "CCR", "CCR", "STR", "STR", "CCA", "CCA", "ASA", "ASA", "DWA"}
+	clientOther = []string{"CER", "DWR", "DWR", "RAR", "RAR", "RAR", "CCR", "CCR", "CCR", "STR", "STR", "CCA", "CCA", "ASA", "ASA", "DWA", "DWA"}
 )
 
 func genServer(t *rapid.T) Case {
